@@ -10,7 +10,52 @@ A scenario is a JSON-able dict:
    'ops': [[opname, args...], ...]}
 `run_scenario` builds the base geometry, applies the operations one by one, checks the geometry
 after each, and returns None or (finding_key, observed, required, step)."""
-import os, string, tempfile, shutil
+import os, string, tempfile, shutil, signal
+
+
+class DoesNotTerminate(BaseException):
+    """raised by the time guard inside a library call that runs away (BaseException: `except Exception` must not swallow it)"""
+
+
+_DEADLINES = []
+
+
+def _arm():
+    import time
+    if not _DEADLINES:
+        signal.setitimer(signal.ITIMER_REAL, 0)
+        return
+    left = min(_DEADLINES) - time.time()
+    signal.setitimer(signal.ITIMER_REAL, max(left, 0.001), 1.0)
+
+
+def _handler(sig, frame):
+    raise DoesNotTerminate()
+
+
+class guard(object):
+    """every call into the implementation runs under this: a call that does not return within `seconds` is turned into a
+    DoesNotTerminate (re-raised every second in case the library swallows it).  Guards nest (the nearest deadline wins).
+    Main thread only."""
+    def __init__(self, seconds): self.s = seconds
+
+    def __enter__(self):
+        import time
+        if not _DEADLINES: self.old = signal.signal(signal.SIGALRM, _handler)
+        else: self.old = None
+        self.deadline = time.time() + self.s
+        _DEADLINES.append(self.deadline)
+        _arm()
+        return self
+
+    def __exit__(self, *a):
+        _DEADLINES.remove(self.deadline)
+        _arm()
+        if not _DEADLINES and self.old is not None: signal.signal(signal.SIGALRM, self.old)
+        return False
+
+
+OP_SECONDS = 30
 
 
 def names_failure(geo, expect=None, invert=True):
@@ -82,9 +127,11 @@ def run_scenario(mg, inp, repo):
     spaces = rect.get('spaces', True)
     generated = 'rect' in base          # names all come from the library's numbering functions
     try:
-        geo = build_base(mg, base, repo)
+        with guard(OP_SECONDS): geo = build_base(mg, base, repo)
     except mg.NamingConventionError:
         return None
+    except DoesNotTerminate:
+        return ('construction:does-not-terminate', 'no result after %d s' % OP_SECONDS, 'a geometry or NamingConventionError', 0)
     expect = None
     if generated:
         nx, ny, nz = rect['n']
@@ -97,95 +144,127 @@ def run_scenario(mg, inp, repo):
         kind = op[0]
         expect = None
         mixed = False
+        check = True
+        extra = None
         try:
-            if kind == 'rename_atm':
-                # give the atmosphere layer the name the numbering assigns to layer number op[1] (if it is free now)
-                jf = str.rjust if geo.right_justified_names else str.ljust
-                try: new = geo.layer_name_from_number(op[1], jf, chars, spaces)
-                except mg.NamingConventionError: continue
-                if new in geo.layer: continue
-                geo.rename_layer(geo.layerlist[0].name, new)
-            elif kind == 'rename_atm_to':
-                if op[1] in geo.layer or len(op[1]) != geo.layername_length: continue
-                geo.rename_layer(geo.layerlist[0].name, op[1])
-            elif kind == 'refine_layers':
-                factor, idx = op[1], op[2]
-                lays = [geo.layerlist[i] for i in idx if 0 < i < len(geo.layerlist)]
-                n_old = len(geo.layerlist)
-                nref = len(lays) if lays else n_old - 1
-                geo.refine_layers(lays, factor, chars, spaces)
-                expect = {'layers': n_old + nref * (factor - 1)}
-            elif kind == 'refine':
-                cols = [geo.columnlist[i] for i in op[1] if i < len(geo.columnlist)]
-                geo.refine(cols, chars=chars, spaces=spaces)
-            elif kind == 'rename_column':
-                jf = str.rjust if geo.right_justified_names else str.ljust
-                new, _ = geo.new_column_name(0, jf, chars, spaces)
-                geo.rename_column(geo.columnlist[op[1] % len(geo.columnlist)].name, new)
-            elif kind == 'add_layers':
-                n = op[1]
-                justify = 'r' if geo.right_justified_names else 'l'
-                top = geo.layerlist[0].top if geo.layerlist else 0.
-                geo.add_layers([3.0] * n, top, justify, chars, spaces)
-                for col in geo.columnlist: geo.set_column_num_layers(col)
-                geo.setup_block_name_index()
-                geo.setup_block_connection_name_index()
-                expect = {'layers': n + 1}
-            elif kind == 'write_read':
-                # the library also constructs a geometry by READING a file: write this one, read it back
-                before = {'layers': len(geo.layerlist), 'columns': len(geo.columnlist), 'nodes': len(geo.nodelist), 'blocks': len(geo.block_name_list)}
-                conv, atm = geo.convention, geo.atmosphere_type
-                # names that differ only in justification ('D  ' and '  D') are distinct in memory but the reader
-                # re-justifies every name to the right: see known finding write_read:names-differ-only-in-justification
-                mixed = any(len(set(o.name.strip() for o in lst)) < len(lst) for lst in (geo.columnlist, geo.nodelist, geo.layerlist))
-                tmp = tempfile.mkdtemp(prefix='c17-')
-                try:
-                    path = os.path.join(tmp, 'g.dat')
-                    geo.write(path)
-                    if op[1] == 'fresh': geo = mg.mulgrid(path)
-                    else:
-                        # read into a USED object that held a geometry of another convention / atmosphere type
-                        other = mg.mulgrid().rectangular([7.] * 2, [7.] * 2, [2.] * 2, convention=(conv + op[2]) % 4, atmos_type=(atm + op[3]) % 3)
-                        other.block_name(other.layerlist[1].name, other.columnlist[0].name)
-                        geo = other.read(path)
-                finally:
-                    shutil.rmtree(tmp, ignore_errors=True)
-                if (geo.convention, geo.atmosphere_type) != (conv, atm):
-                    return ('write_read:convention-or-atmosphere-type-lost', repr((geo.convention, geo.atmosphere_type)), repr((conv, atm)), step)
-                expect = before
-            elif kind == 'mapped_calls':
-                # block_name with a caller's block mapping, then without: later results must not depend on the earlier calls,
-                # and the caller's dictionary must not be changed
-                pairs = [(lay.name, col.name) for lay in geo.layerlist for col in geo.columnlist][:op[1]]
-                plain = [geo.block_name(l, c) for l, c in pairs]
-                bm = dict((plain[i], plain[(i + 1) % len(plain)]) for i in range(len(plain)))
-                bm0 = dict(bm)
-                for l, c in pairs: geo.block_name(l, c, bm)
-                if bm != bm0:
-                    return ('block_name:callers-blockmap-mutated', repr(sorted(bm.items())[:3]), 'block mapping left as passed', step)
-                dflt = mg.mulgrid.block_name.__defaults__
-                if dflt != ({},):
-                    return ('block_name:shared-default-blockmap-mutated', repr(dflt)[:200], 'default block mapping stays empty', step)
-            elif kind == 'other_objects':
-                # other live geometries of other conventions are built and used; this one must not notice
-                for k in range(1, 4):
-                    o = mg.mulgrid().rectangular([4.] * 2, [4.] * 1, [1.] * 3, convention=(geo.convention + k) % 4, atmos_type=(geo.atmosphere_type + k) % 3,
-                                                 justify='rl'[k % 2], chars=[string.ascii_uppercase, 'qrs', string.ascii_lowercase][k % 3])
-                    for lay in o.layerlist:
-                        for col in o.columnlist: o.block_name(lay.name, col.name, {o.block_name(lay.name, col.name): 'zz%3d' % k})
-                    o.add_layers([1.] * 4, 0., 'l', 'xyzxyz', True)
-                    o.convention = (o.convention + 1) % 4
-            else:
-                raise ValueError(kind)
+          with guard(OP_SECONDS):
+              if kind == 'rename_atm':
+                  # give the atmosphere layer the name the numbering assigns to layer number op[1] (if it is free now)
+                  jf = str.rjust if geo.right_justified_names else str.ljust
+                  try: new = geo.layer_name_from_number(op[1], jf, chars, spaces)
+                  except mg.NamingConventionError: continue
+                  if new in geo.layer: continue
+                  geo.rename_layer(geo.layerlist[0].name, new)
+              elif kind == 'rename_atm_to':
+                  if op[1] in geo.layer or len(op[1]) != geo.layername_length: continue
+                  geo.rename_layer(geo.layerlist[0].name, op[1])
+              elif kind == 'refine_layers':
+                  factor, idx = op[1], op[2]
+                  lays = [geo.layerlist[i] for i in idx if 0 < i < len(geo.layerlist)]
+                  n_old = len(geo.layerlist)
+                  nref = len(lays) if lays else n_old - 1
+                  geo.refine_layers(lays, factor, chars, spaces)
+                  expect = {'layers': n_old + nref * (factor - 1)}
+              elif kind == 'refine':
+                  cols = [geo.columnlist[i] for i in op[1] if i < len(geo.columnlist)]
+                  geo.refine(cols, chars=chars, spaces=spaces)
+              elif kind in ('rename_column', 'delete_column') and len(geo.columnlist) < 2: continue
+              elif kind == 'rename_column':
+                  jf = str.rjust if geo.right_justified_names else str.ljust
+                  new, _ = geo.new_column_name(0, jf, chars, spaces)
+                  geo.rename_column(geo.columnlist[op[1] % len(geo.columnlist)].name, new)
+              elif kind == 'add_layers':
+                  n = op[1]
+                  justify = 'r' if geo.right_justified_names else 'l'
+                  top = geo.layerlist[0].top if geo.layerlist else 0.
+                  geo.add_layers([3.0] * n, top, justify, chars, spaces)
+                  for col in geo.columnlist: geo.set_column_num_layers(col)
+                  geo.setup_block_name_index()
+                  geo.setup_block_connection_name_index()
+                  expect = {'layers': n + 1}
+              elif kind == 'write_read':
+                  # the library also constructs a geometry by READING a file: write this one, read it back
+                  before = {'layers': len(geo.layerlist), 'columns': len(geo.columnlist), 'nodes': len(geo.nodelist), 'blocks': len(geo.block_name_list)}
+                  conv, atm = geo.convention, geo.atmosphere_type
+                  # names that differ only in justification ('D  ' and '  D') are distinct in memory but the reader
+                  # re-justifies every name to the right: see known finding write_read:names-differ-only-in-justification
+                  mixed = any(len(set(o.name.strip() for o in lst)) < len(lst) for lst in (geo.columnlist, geo.nodelist, geo.layerlist))
+                  tmp = tempfile.mkdtemp(prefix='c17-')
+                  try:
+                      path = os.path.join(tmp, 'g.dat')
+                      geo.write(path)
+                      if op[1] == 'fresh': geo = mg.mulgrid(path)
+                      else:
+                          # read into a USED object that held a geometry of another convention / atmosphere type
+                          other = mg.mulgrid().rectangular([7.] * 2, [7.] * 2, [2.] * 2, convention=(conv + op[2]) % 4, atmos_type=(atm + op[3]) % 3)
+                          other.block_name(other.layerlist[1].name, other.columnlist[0].name)
+                          geo = other.read(path)
+                  finally:
+                      shutil.rmtree(tmp, ignore_errors=True)
+                  if (geo.convention, geo.atmosphere_type) != (conv, atm):
+                      return ('write_read:convention-or-atmosphere-type-lost', repr((geo.convention, geo.atmosphere_type)), repr((conv, atm)), step)
+                  expect = before
+              elif kind == 'mapped_calls':
+                  # block_name with a caller's block mapping, then without: later results must not depend on the earlier calls,
+                  # and the caller's dictionary must not be changed
+                  pairs = [(lay.name, col.name) for lay in geo.layerlist for col in geo.columnlist][:op[1]]
+                  plain = [geo.block_name(l, c) for l, c in pairs]
+                  if not plain: continue
+                  bm = dict((plain[i], plain[(i + 1) % len(plain)]) for i in range(len(plain)))
+                  bm0 = dict(bm)
+                  for l, c in pairs: geo.block_name(l, c, bm)
+                  if bm != bm0:
+                      return ('block_name:callers-blockmap-mutated', repr(sorted(bm.items())[:3]), 'block mapping left as passed', step)
+                  dflt = mg.mulgrid.block_name.__defaults__
+                  if dflt != ({},):
+                      return ('block_name:shared-default-blockmap-mutated', repr(dflt)[:200], 'default block mapping stays empty', step)
+              elif kind == 'other_objects':
+                  # other live geometries of other conventions are built and used; this one must not notice
+                  for k in range(1, 4):
+                      o = mg.mulgrid().rectangular([4.] * 2, [4.] * 1, [1.] * 3, convention=(geo.convention + k) % 4, atmos_type=(geo.atmosphere_type + k) % 3,
+                                                   justify='rl'[k % 2], chars=[string.ascii_uppercase, 'qrs', string.ascii_lowercase][k % 3])
+                      for lay in o.layerlist:
+                          for col in o.columnlist: o.block_name(lay.name, col.name, {o.block_name(lay.name, col.name): 'zz%3d' % k})
+                      o.add_layers([1.] * 4, 0., 'l', 'xyzxyz', True)
+                      o.convention = (o.convention + 1) % 4
+              elif kind == 'delete_column':
+                  # leaves a gap in the column numbering (the block list is re-indexed by the next operation, so no check here)
+                  geo.delete_column(geo.columnlist[op[1] % len(geo.columnlist)].name)
+                  check = False
+              elif kind == 'reduce':
+                  keep = [c for i, c in enumerate(geo.columnlist) if i not in op[1]]
+                  if not keep: continue
+                  ncol = len(keep)
+                  geo.reduce(keep)
+                  expect = {'columns': ncol}
+              elif kind == 'split_column':
+                  quads = [c for c in geo.columnlist if c.num_nodes == 4]
+                  if not quads: continue
+                  col = quads[op[1] % len(quads)]
+                  ncol = len(geo.columnlist)
+                  ok = geo.split_column(col.name, col.node[op[2] % 4].name, chars)
+                  if ok:
+                      expect = {'columns': ncol + 1}
+                      used = set(id(c) for con in geo.connectionlist for c in con.column)
+                      if not used <= set(id(c) for c in geo.columnlist):
+                          extra = ('split_column:connection-to-a-column-not-in-the-geometry', 'a connection refers to a column object that is not in columnlist',
+                                   'every connected column is a column of the geometry', step)
+              else:
+                  raise ValueError(kind)
         except mg.NamingConventionError:
             return None
+        except DoesNotTerminate:
+            return ('%s:does-not-terminate' % kind, 'no result after %d s' % OP_SECONDS, 'a result or NamingConventionError', step)
         except Exception as e:
+            if kind == 'refine': return None     # refine() refuses some column shapes / disconnected grids: a geometric limitation, not a naming matter
             return ('%s:unexpected-exception' % kind, '%s: %s' % (type(e).__name__, str(e)[:200]), 'geometry or NamingConventionError', step)
+        if not check: continue
         f = names_failure(geo, expect, invert=generated)
         if f:
             if kind == 'write_read' and mixed:
                 return ('write_read:names-differ-only-in-justification', f[1] + ' (' + f[0] + ')', f[2], step)
             return (kind + ':' + f[0],) + f[1:] + (step,)
+        if extra: return extra
     return None
 
 
@@ -229,6 +308,18 @@ def scenarios(rng, thorough):
                     out.append({'scenario': 'edit', 'base': base, 'ops': ops})
     for f in ('g1', 'g2', 'g3', 'g4', 'g5', 'g6', 'g7'):
         out.append({'scenario': 'edit', 'base': {'file': 'tests/mulgrid/%s.dat' % f}, 'ops': [['write_read', 'fresh'], ['write_read', 'reuse', 1, 1]]})
+    # (e) split_column after operations that leave gaps in the column numbering (delete_column, reduce, partial refine)
+    for conv in range(4):
+        for justify, chars, sp in (('r', lo, True), ('l', lo, True), ('r', up, True), ('r', lo, False)):
+            for atm in (0, 1):
+                base = {'rect': {'n': [3, 3, 2], 'convention': conv, 'atmos_type': atm, 'justify': justify, 'chars': chars, 'spaces': sp}}
+                for ops in ([['split_column', 0, 0]],
+                            [['delete_column', 0], ['split_column', 0, 0]],
+                            [['delete_column', 4], ['split_column', 2, 1], ['split_column', 1, 2], ['write_read', 'fresh']],
+                            [['reduce', [0, 1]], ['split_column', 0, 3], ['refine_layers', 2, []]],
+                            [['refine', [0]], ['split_column', 0, 0], ['split_column', 3, 1]],
+                            [['rename_column', 0], ['split_column', 1, 0], ['delete_column', 2], ['split_column', 0, 2]]):
+                    out.append({'scenario': 'edit', 'base': base, 'ops': ops})
     # add_layers on an existing geometry across the skipped layer number (convention 2: 'at' = layer 46)
     out.append({'scenario': 'edit', 'base': {'rect': {'n': [1, 1, 2], 'convention': 2, 'atmos_type': 0}}, 'ops': [['add_layers', 47], ['refine_layers', 2, [1]]]})
     out.append({'scenario': 'edit', 'base': {'rect': {'n': [1, 1, 30], 'convention': 2, 'atmos_type': 1}}, 'ops': [['refine_layers', 2, []]]})
@@ -246,6 +337,7 @@ def scenarios(rng, thorough):
             ops = []
             for _k in range(rng.randint(1, 5)):
                 ops.append(rng.choice([['write_read', 'fresh'], ['write_read', 'reuse', rng.randrange(4), rng.randrange(3)], ['mapped_calls', rng.randint(1, 20)], ['other_objects'],
+                                       ['split_column', rng.randrange(6), rng.randrange(4)], ['reduce', [rng.randrange(4)]],
                                        ['rename_atm', rng.randint(1, 14)], ['refine_layers', rng.choice([2, 3]), rng.choice([[], [1], [1, 2]])],
                                        ['refine', rng.choice([[], [0], [0, 1]])], ['rename_column', rng.randrange(8)], ['add_layers', rng.randint(1, 50)]]))
             out.append({'scenario': 'edit', 'base': base, 'ops': ops})
